@@ -1,7 +1,10 @@
 SPECIFICATION TSpec
-INVARIANT EveryUnitOnce
-INVARIANT Conservation
-INVARIANT ReportingIsModelled
+INVARIANT TEveryUnitOnce
+INVARIANT TUnitVotesConserved
+INVARIANT TConservation
+INVARIANT TLevelsSumToFeed
+INVARIANT TNoKeyLost
+INVARIANT TReportingIsModelled
 INVARIANT ObsUnitTable
 INVARIANT ObsGroups
 CONSTRAINT Finished
